@@ -15,9 +15,12 @@ PROP = dict(
         "prices can spin on JMP 0 and is outside the property's premise",
         "bare VM: SYSCALL/CALLT fault; Go runtime memory safety of math/big, slices and maps is assumed",
     ],
-    modelled="vm.go and scparser.IsScriptCorrect are modelled, not translated; refs_never_undercount is proved in Coq only for "
-             "executions that create no Array/Struct/Map (there the counter is exact); for the compound-type instructions it is "
-             "checked on the real VM and on the model at every step of every generated execution",
+    modelled="vm.go and scparser.IsScriptCorrect are modelled, not translated; the model's REMOVE on a Map drops the entry "
+             "before un-counting key and value (the order of the repair F50; vm.go as found un-counts first and under-counts when "
+             "the removed value is the last holder of the map itself - known finding F50, executions of that shape are compared "
+             "up to the REMOVE only); refs_never_undercount is proved in Coq for every instruction of the bare VM (one script "
+             "context); exactness (refs == walk while no cycle was built) is proved only for compound-free executions and "
+             "checked on the real VM at every step of every generated execution",
 )
 META = dict(
     text="Proved in Coq on the VM model for every script and state: totality (every execution under a finite gas limit with "
@@ -30,10 +33,13 @@ META = dict(
          "independent walk at every step and == while no cycle was built, limits; refs trace, state, stack and gas equal the "
          "model's; soundness of the static script check (model of scparser.IsScriptCorrect, compared with it on every case): a "
          "script that passes never stands at a non-boundary offset - proved in Coq and checked directly on the real VM. "
-         "Partial: counter soundness (reach_count <= refs) is proved in Coq only as exactness on compound-free executions "
-         "(all instructions except the nine that create an Array/Struct/Map); for the compound-type instructions it is only "
-         "checked at every step of every generated execution (real VM: counter vs independent walk; model: walk vs the "
-         "counter the real VM showed).",
+         "Counter soundness (reach_count <= refs after every instruction of every execution and at HALT, any script) is "
+         "proved in Coq through an in-degree invariant of the per-compound counts, preserved by every instruction family "
+         "(creation, growth, readers, spreading, removal/SETITEM, slots and stack shuffles, CALL/RET/unloading, TRY/THROW "
+         "unwinding) - on the model whose REMOVE follows the repair F50: the proof attempt found that vm.go's REMOVE on a Map "
+         "under-counts (finding F50, reproduced on the real VM: counter -1 with an empty stack). Partial: exactness of the "
+         "counter (== the walk while no cycle was built) is proved only on compound-free executions; with compounds it is "
+         "checked on the real VM at every step of every generated execution.",
     note="The model is hand-written and tied to vm.go by differential execution only. Trusted: model, translator of the tables, "
          "Go walk, hooks, Coq kernel/vm_compute, harness and orchestration.",
 )
